@@ -171,6 +171,9 @@ func growTree(t *rn.Tag) *rn.Tag {
 	switch t.Type {
 	case rn.String:
 		n.S = append(append([]byte{}, t.S...), "xx"...)
+		if len(n.S) > 32767 { // stay inside the format's limit: a different string of the same length
+			n.S = append([]byte("yy"), t.S[:len(t.S)-2]...)
+		}
 	case rn.ByteArray:
 		n.B = append(append([]byte{}, t.B...), 1, 2, 3)
 	case rn.IntArray:
